@@ -34,7 +34,7 @@ type copyState struct {
 
 func RunBuffer(c *sim.Ctx) {
 	n := knobInt(c, "events", 1, 10)
-	c.ProbeDecl("process_failure_injected", "check_failure_injected", "spilled_by_limit", "duplicate_copy_pushed", "connected_outside_buffer", "push_processed_2_or_more_events", "push_processed_3_or_more_events", "all_events_processed_with_ample_limits")
+	c.ProbeDecl("process_failure_injected", "check_failure_injected", "spilled_by_limit", "duplicate_copy_pushed", "connected_outside_buffer", "push_processed_2_or_more_events", "push_processed_3_or_more_events", "all_events_processed_with_ample_limits", "event_names_a_parent_twice")
 	// a DAG: event i has up to 3 parents among 0..i-1
 	type evd struct {
 		parents []int
@@ -42,6 +42,7 @@ func RunBuffer(c *sim.Ctx) {
 		base    *dag.BaseEvent
 	}
 	evs := make([]*evd, n)
+	dupParents := knobInt(c, "parents_lists_with_duplicates", 0, 3) == 0
 	for i := 0; i < n; i++ {
 		np := knobInt(c, fmt.Sprintf("nparents%d", i), 0, 3)
 		e := &evd{}
@@ -62,6 +63,11 @@ func RunBuffer(c *sim.Ctx) {
 		var ps hash.Events
 		for _, p := range e.parents {
 			ps = append(ps, evs[p].id)
+		}
+		if dupParents && len(ps) > 0 && knobInt(c, fmt.Sprintf("dup_parent%d", i), 0, 3) == 0 {
+			// a malformed parents list naming one parent twice (the buffer runs before or without the basic checks)
+			ps = append(ps, ps[0])
+			c.Probe("event_names_a_parent_twice")
 		}
 		me.SetParents(ps)
 		var rid [24]byte
@@ -196,8 +202,8 @@ func RunBuffer(c *sim.Ctx) {
 				// already released copy is only counted
 				c.Probe("check_called_on_released_copy")
 			}
-			if len(parents) != len(evs[ce.ev].parents) {
-				viol("buffer-order", "buffer-order/parents-arg", "Check(e%d) received %d parents, the event has %d", ce.ev, len(parents), len(evs[ce.ev].parents))
+			if len(parents) != len(evs[ce.ev].base.Parents()) {
+				viol("buffer-order", "buffer-order/parents-arg", "Check(e%d) received %d parents, the event lists %d", ce.ev, len(parents), len(evs[ce.ev].base.Parents()))
 			}
 			if failCheck[ce.ev] {
 				c.Probe("check_failure_injected")
